@@ -149,6 +149,16 @@ CLAIMS = {
              "provider (= the program with the knowledge erased); each observation incl. 'table lineage equals the one without metadata' is "
              "decided by Trace_Col.",
         note="trusted: TLC, the renderer, sqlite as the database behind the SQLAlchemy provider; knowledge: s.a(c,d), s.b(c,e), target t1..tn"),
+    "C16": dict(
+        design="5/C16, 3.1",
+        technique="TLA+ model checking (TLC) of Names.tla (normaliser applied once at every position) + every TLC-enumerated (spelling, position) pair rendered and analysed under the dialect admitting its quote style + TLC trace validation (Trace_Names)",
+        text="Names.tla models identifier parts (case pattern x unquoted / double quotes / backticks / square brackets, 1-3 parts), the "
+             "normaliser and the syntactic positions that establish and look up a name (target -> later FROM, select alias and INSERT column "
+             "list -> later column reference, alias definition -> qualifier, FROM -> FROM); TLC proves that entities found again are exactly "
+             "the equal ones when every position normalises once, finds the double normalisation as a deviation, and prints every case; "
+             "each is rendered into one- and two-statement scripts and both the printed names and 'the read finds what the write "
+             "established' are decided by Trace_Names.",
+        note="trusted: TLC, the spelling renderer, the case-per-part projection of printed names; one quote style per name"),
 }
 
 NOT_YET = "check not built yet in this round; planned as described in DESIGN.md section 5"
